@@ -279,7 +279,10 @@ class Check:
             case_ops = [o for o in ops[a:first + 1] if not o.startswith("#")]
             shrunk = case_ops
             if hbin and exe:
-                shrunk = self.shrink(case_ops, hbin, exe, exe_args)
+                # a case in which the implementation's own oracle failed is shrunk with "the oracle still fails" as
+                # the predicate, so that a concrete failing input is not reduced to a mere correspondence mismatch
+                want_prop = impl[first].startswith("FAIL") or impl[first].startswith("panic")
+                shrunk = self.shrink(case_ops, hbin, exe, exe_args, want_prop=want_prop)
             isprop, det = self.classify_case(shrunk, hbin, exe, exe_args) if hbin and exe else (impl[first].startswith("FAIL") or impl[first].startswith("panic"), f"impl: {impl[first]} | model: {model[first]}")
             self.problems.append(Problem("property" if isprop else "correspondence",
                                          "property oracle fails on the implementation" if isprop else "model and implementation disagree",
@@ -302,11 +305,13 @@ class Check:
             return None
         return open(impl).read().splitlines(), open(m).read().splitlines()
 
-    def _fails(self, case_ops, hbin, exe, exe_args):
+    def _fails(self, case_ops, hbin, exe, exe_args, want_prop=False):
         r = self._run_case(case_ops, hbin, exe, exe_args)
         if r is None:
             return False
         impl, model = r
+        if want_prop:
+            return any(a.startswith("FAIL") or a.startswith("panic") for a in impl)
         if len(impl) != len(model):
             return True
         return any((a != b or a.startswith("FAIL") or a.startswith("panic")) for a, b in zip(impl, model))
@@ -324,10 +329,10 @@ class Check:
                 return False, f"line {i}: impl: {a} | model: {b}"
         return False, "not reproducible on re-run"
 
-    def shrink(self, case_ops, hbin, exe, exe_args, budget=150):
+    def shrink(self, case_ops, hbin, exe, exe_args, budget=150, want_prop=False):
         """ddmin over op lines (each candidate re-executed on implementation and model from a fresh state)"""
         cur = list(case_ops)
-        if not self._fails(cur, hbin, exe, exe_args):
+        if not self._fails(cur, hbin, exe, exe_args, want_prop):
             return cur
         n = 2
         runs = 0
@@ -337,7 +342,7 @@ class Check:
             for s in range(0, len(cur), chunk):
                 cand = cur[:s] + cur[s + chunk:]
                 runs += 1
-                if cand and self._fails(cand, hbin, exe, exe_args):
+                if cand and self._fails(cand, hbin, exe, exe_args, want_prop):
                     cur = cand
                     n = max(n - 1, 2)
                     reduced = True
